@@ -59,6 +59,7 @@ type ModOut struct {
 	GOwner  [][2]int   `json:"gowner"` // per global index: owner module, owner's index
 	Start   bool       `json:"start"`
 	NImpF   int        `json:"nimpf"`
+	GInit   []*uint64  `json:"ginit"` // per global index: the value right after instantiation, when known by design
 }
 
 type Case struct {
@@ -91,6 +92,9 @@ func (g *graph) exporter(witness string) *LMod {
 	m.OwnMem, m.MMin = true, uint32(1+r.Intn(2))
 	if r.Intn(3) != 0 && witness != "w-maxlimit" {
 		m.MHasMax, m.MMax = true, m.MMin+uint32(r.Pick([]uint64{0, 1, 3, 6}))
+		if witness == "w-grown" {
+			m.MMax = m.MMin + 3
+		}
 	}
 	m.MObj = &Obj{Kind: 2, Owner: m.N, Min: m.MMin, HasMax: m.MHasMax, Max: m.MMax}
 	m.OwnTab, m.TMin = true, uint32(4+r.Intn(5))
@@ -328,7 +332,8 @@ func (g *graph) importer(exps []*LMod, fault string) *LMod {
 			s := c.Sig{P: append([]byte{}, o.Sig.P...), R: append([]byte{}, o.Sig.R...)}
 			switch k := r.Intn(4); {
 			case k == 0 && len(s.P) > 0:
-				s.P[r.Intn(len(s.P))] = flipVT(s.P[0])
+				j := r.Intn(len(s.P))
+				s.P[j] = flipVT(s.P[j])
 			case k == 1 && len(s.R) > 0:
 				s.R[0] = flipVT(s.R[0])
 			case k == 2:
@@ -646,6 +651,11 @@ func (g *graph) build(id int, witness string) *Case {
 	steps := []Step{{K: "inst", N: a.N}}
 	live := []int{a.N}
 	g.randomCalls(&steps, live, 2+r.Intn(4))
+	if witness == "w-grown" { // the exporter grows its memory before anybody imports it: the import minimum is judged against the current size
+		st := g.callStep(a.N, a.findFn("grow", -1))
+		st.Args = []uint64{1}
+		steps = append(steps, st)
+	}
 	good := []*LMod{a}
 	nimp := 1 + r.Intn(2)
 	if witness == "w-reexport" {
@@ -671,6 +681,15 @@ func (g *graph) build(id int, witness string) *Case {
 				m = g.importerWith(good, "data", func(m *LMod) bool { return m.TObj != nil && m.TObj.Owner != m.N && m.MObj != nil && m.MObj.Owner != m.N && len(m.Elems) > 0 })
 			case "w-elemoob":
 				m = g.importerWith(good, "elem", func(m *LMod) bool { return m.MObj != nil && m.MObj.Owner != m.N && len(m.Datas) > 0 && m.TObj != nil && m.TObj.Owner != m.N })
+			case "w-grown":
+				m = g.importerWith(good, "import", func(m *LMod) bool {
+					for _, im := range m.Imports {
+						if im.Kind == 2 && im.Variant == "min+1" && im.Mod == 0 {
+							return true
+						}
+					}
+					return false
+				})
 			case "w-reexport":
 				switch k {
 				case 0: // M1 defines functions and imports some
@@ -701,6 +720,7 @@ func (g *graph) build(id int, witness string) *Case {
 			snaps(&steps, live, "pre", m.N)
 			steps = append(steps, Step{K: "inst", N: m.N})
 			snaps(&steps, live, "post", m.N)
+			steps = append(steps, Step{K: "snap", N: m.N, Need: []int{m.N}, Tag: "self", Of: m.N})
 			live = append(live, m.N)
 			if ft == "none" {
 				good = append(good, m)
@@ -710,7 +730,9 @@ func (g *graph) build(id int, witness string) *Case {
 			if witness == "w-reexport" {
 				for fi := 0; fi < m.NImpF; fi++ {
 					if g.hostCallHazard(m, fi) || g.chainHazard(m, fi) {
-						steps = append(steps, g.callStep(m.N, fi), g.callStep(m.N, m.findFn("wrap", fi)))
+						a, b := g.callStep(m.N, fi), g.callStep(m.N, m.findFn("wrap", fi))
+						a.Tag, b.Tag = "reexport", "reexport"
+						steps = append(steps, a, b)
 					}
 				}
 			}
@@ -730,8 +752,26 @@ func (g *graph) build(id int, witness string) *Case {
 		if m.MObj != nil {
 			mo.MemOf = m.MObj.Owner
 		}
-		for _, o := range m.GObj {
+		startSets := false
+		if m.Start >= 0 {
+			for _, in := range m.Funcs[m.Start-m.NImpF].Body {
+				if strings.HasPrefix(in.Coq, "GlobalSet") {
+					startSets = true
+				}
+			}
+		}
+		for gi, o := range m.GObj {
 			mo.GOwner = append(mo.GOwner, [2]int{o.Owner, o.Idx})
+			switch {
+			case o.Owner < 0:
+				mo.GInit = append(mo.GInit, nil)
+			case !o.Mut: // immutable: the value its definer computed, whatever happened since
+				mo.GInit = append(mo.GInit, u64p(o.Val))
+			case gi >= m.NImpG && !startSets: // own mutable global, not yet touched
+				mo.GInit = append(mo.GInit, u64p(o.Val))
+			default:
+				mo.GInit = append(mo.GInit, nil)
+			}
 		}
 		for _, d := range m.Datas {
 			row := []uint64{d.ROff}
@@ -911,7 +951,7 @@ func main() {
 	defer out.Flush()
 	var cases []*Case
 	// fixed witnesses of the known deviations, then random graphs
-	for _, w := range []string{"w-mutoff", "w-maxlimit", "w-dataelem", "w-elemoob", "w-reexport"} {
+	for _, w := range []string{"w-mutoff", "w-maxlimit", "w-dataelem", "w-elemoob", "w-reexport", "w-grown"} {
 		g := &graph{r: c.NewRng(rng.U64())}
 		cases = append(cases, g.build(len(cases), w))
 	}
